@@ -77,7 +77,17 @@ pub fn run(ctx: &Ctx, rep: &mut Reporter) {
     }
 }
 
+thread_local! {
+    /// the other mapping's serialisation as first seen on this thread (before any fault)
+    static OTHER_CANONICAL: std::cell::RefCell<Option<Vec<u8>>> = const { std::cell::RefCell::new(None) };
+}
+
 fn check(text: &[u8], rep: &mut Reporter, case_idx: u64) {
+    OTHER_CANONICAL.with(|c| {
+        if c.borrow().is_none() {
+            *c.borrow_mut() = cur::write_cache(OTHER_MAPPING).ok();
+        }
+    });
     let canonical = cur::write_cache(text).expect("write to Vec");
     let Ok(layout) = layout_walk(&canonical, 1) else { return };
     rep.count("mappings", 1);
@@ -131,9 +141,24 @@ fn check(text: &[u8], rep: &mut Reporter, case_idx: u64) {
     }
     // every schedule once with a plain sink and once with a sink whose write_vectored gathers
     let schedules: Vec<(Schedule, bool)> = schedules.iter().map(|s| (*s, false)).chain(schedules.iter().map(|s| (*s, true))).collect();
+    // the kind of a hard failure rotates with the call index; the first three calls fail with
+    // every kind
+    let mut schedules: Vec<(Schedule, bool, usize)> = schedules
+        .into_iter()
+        .map(|(s, v)| (s, v, if let Schedule::FailAt(i) = s { i % FAIL_KINDS.len() } else { 0 }))
+        .collect();
+    for i in 0..ncalls.min(3) {
+        for k in 0..FAIL_KINDS.len() {
+            schedules.push((Schedule::FailAt(i), false, k));
+        }
+    }
     let mut followups = 0u64;
-    for (sch, vectored) in schedules {
+    for (sch, vectored, kind_idx) in schedules {
         let mut sink = if vectored { FaultSink::new_vectored(sch) } else { FaultSink::new(sch) };
+        sink.fail_kind = FAIL_KINDS[kind_idx];
+        if matches!(sch, Schedule::FailAt(_)) {
+            rep.count(&format!("hard_failures_of_kind_{:?}", FAIL_KINDS[kind_idx]), 1);
+        }
         sink.limit = canonical.len() * 3 + 4096;
         let res = cur::write_cache_to(text, &mut sink);
         rep.count("evaluations", 1);
@@ -172,6 +197,7 @@ fn check(text: &[u8], rep: &mut Reporter, case_idx: u64) {
         let mk = |sink: &FaultSink| {
             let mut d = mapping_detail(text, "");
             d.set("schedule", Json::s(format!("{sch:?}{}", if vectored { " (sink gathers write_vectored buffers)" } else { "" })));
+            d.set("error_kind_of_a_hard_failure", Json::s(format!("{:?}", FAIL_KINDS[kind_idx])));
             d.set("write_calls", Json::i(sink.calls as u64));
             d.set("canonical_len", Json::i(canonical.len() as u64));
             d.set("accepted_len", Json::i(sink.accepted.len() as u64));
@@ -224,6 +250,15 @@ fn check(text: &[u8], rep: &mut Reporter, case_idx: u64) {
             let again = cur::write_cache(text);
             rep.count("evaluations", 1);
             rep.count(if res.is_err() { "writes_following_a_failed_write_on_the_same_thread" } else { "writes_following_a_faulty_but_successful_write" }, 1);
+            if res.is_err() && followups % 3 == 0 {
+                // ... and a different mapping right after the failure
+                let other = cur::write_cache(OTHER_MAPPING);
+                let clean = OTHER_CANONICAL.with(|c| c.borrow_mut().get_or_insert_with(|| other.as_ref().ok().cloned().unwrap_or_default()).clone());
+                rep.count("evaluations", 1);
+                if other.as_deref().ok() != Some(&clean[..]) {
+                    rep.violation(case_idx, "sink", &format!("the write of ANOTHER mapping that follows a failed write on the same thread is not that mapping's usual serialisation ({kind})"), mk(&sink));
+                }
+            }
             if again.as_deref().ok() != Some(&canonical[..]) {
                 let mut d = mk(&sink);
                 d.set("second_write_len", Json::s(format!("{:?}", again.as_ref().map(|v| v.len()))));
